@@ -38,6 +38,7 @@ type Request struct {
 	ID  uint64
 	Op  string // run | analyze | print | transform | lex | ping
 	Rep int    `json:",omitempty"` // repeat the whole pipeline Rep times in this process (C14)
+	RecompileAnalysed int `json:",omitempty"` // VM: compile the SAME analysed modules this many more times and run each result (a host may cache analysed programs)
 	RerunCompiled int `json:",omitempty"` // VM: run the SAME compiled program this many more times on fresh VMs (a host may cache compiled programs)
 
 	Modules map[string]string
@@ -55,6 +56,8 @@ type Request struct {
 
 	CancelAt int64 `json:",omitempty"` // cancel becomes visible at the k-th poll of the context (0 = never)
 	PollCap  int64 `json:",omitempty"` // safety: cancel anyway at this poll count (0 = none)
+	CancelBeforeStart bool `json:",omitempty"` // the host cancels after the VM was created and before main is started
+	CancelAtWrite     int  `json:",omitempty"` // the host cancels when it receives the n-th write (i.e. between two polls of the writing core)
 
 	Optimize  bool `json:",omitempty"`
 	SkipMain  bool `json:",omitempty"` // only initialise (NewVM); used with Invocations
